@@ -33,7 +33,7 @@ DESC_SOURCE = ((10, 13, 40), 32, (8, 8, 16), 1, 4.0, 'desc')
 BIG_SOURCE = ((16, 9, 40), 32, (4, 4, -1), 1, 4.0, 'big')
 # less than one bit per voxel (lengths in the header are whole disk blocks computed from a fractional rate), with stored header arrays
 SUB_SOURCE = ((9, 10, 30), 0.5, (4, 4, -1), 2)
-SUB_SOURCE_B = ((70, 9, 6), 0.25, (64, 64, 4), 1)
+SUB_SOURCE_B = ((70, 9, 6), 0.25, (256, 128, 4), 1)
 
 
 def make_dup_source(d, k, seed):
